@@ -152,6 +152,9 @@ def cases(tier: str, seed: int) -> list[dict]:
         perm = [*W.kind_dims(w, kind)] + [e[0] for e in extras]
         rng.shuffle(perm)
         out.append(_wound_case(w, kind, extras, perm, rng.choice(dtypes), "rand"))
+    vias = ["memory", "file", "memory", "dask", "memory", "emsopen", "memory"]      # how the dataset is held (viafile.hold)
+    for k, c in enumerate(out):
+        c["world"] = dict(c["world"], via=vias[k % len(vias)])
     return out
 
 
@@ -180,7 +183,8 @@ def _proj(da: xarray.DataArray) -> dict:
 
 def execute(case: dict) -> dict:
     w = case["world"]
-    ds = W.build(w)
+    from .. import viafile
+    ds = viafile.hold_ds(w, W.build(w))
     conv = W.bind(w, ds)
     kind_enum = type(next(iter(conv.grid_kinds)))
     from emsarray import utils
@@ -227,3 +231,7 @@ def execute(case: dict) -> dict:
             e["obs"] = res
         rec["events"].append(e)
     return rec
+
+
+from .. import viafile as _viafile  # noqa: E402
+execute = _viafile.closing(execute)
